@@ -10,7 +10,7 @@ LEVEL = "exploration"
 EXHAUSTIVE = True
 RULE = ("configuration space enumerated completely: fd_order in {2,4,6,8} x "
         "boundary in {no boundary, periodic, symmetric} x axis in {x,y,z} x N "
-        "from 2 to Nmax (quick 22, thorough 64) on non-cubic grids with three "
+        "from 2 to Nmax (quick 22, thorough 96) on non-cubic grids with three "
         "different spacings. For each configuration the complete linear form "
         "of the operator is extracted by unit impulses along the axis and "
         "compared entry by entry with exact rational p-th-order weights "
@@ -87,7 +87,7 @@ def oracle_matrix(p, boundary, N):
 
 
 def cases(tier, sd):
-    nmax = 22 if tier == "quick" else 64
+    nmax = 22 if tier == "quick" else 96
     out = []
     for p in ORDERS:
         for b in BOUNDARIES:
